@@ -442,6 +442,7 @@ func (g *gen) stmt(c *ctx, nest int) *Stmt {
 		}
 		cl := core.Pick(r, cands)
 		s := &Stmt{K: "assign", Tok: ":="}
+		s.Rhs = []*Expr{g.call(c, cl, 1)} // before the new names exist: they are not in scope in their own initialiser
 		var uses []*Stmt
 		for _, t := range cl.res {
 			obj := g.newObj()
@@ -450,7 +451,6 @@ func (g *gen) stmt(c *ctx, nest int) *Stmt {
 			s.Lhs = append(s.Lhs, Lhs{K: "ident", Src: nm, Obj: obj, Ty: t})
 			uses = append(uses, &Stmt{K: "assign", Tok: "=", Lhs: []Lhs{{K: "ident", Src: "_"}}, Rhs: []*Expr{ident(nm, t, true, obj)}})
 		}
-		s.Rhs = []*Expr{g.call(c, cl, 1)}
 		return &Stmt{K: "group", Head: "seq", Blocks: [][]*Stmt{append([]*Stmt{s}, uses...)}}
 	case k < 52 && c.depth < 2 && g.budget > 0: // a closure variable that later calls can use
 		kk := r.Intn(len(cbKinds))
